@@ -285,6 +285,28 @@ class Table:
             args = (c, args[2], args[1]) if flipped else (c, args[1], args[2])
             if isinstance(args[1], RF) and isinstance(args[2], RF) and self.equal(args[1], args[2]):
                 return args[1]
+        if head == 'bool' and extra in ('And', 'Or') and args and all(isinstance(x, RF) for x in args) and \
+                not getattr(self, '_in_bool', False):
+            # one spelling per conjunction / disjunction: literals in canonical polarity and a fixed order; a
+            # disjunction in which at least half of the literals are negated is written as the negation of the
+            # conjunction of their opposites (De Morgan): `a is None or not b`  ==  not (a is not None and b)
+            self._in_bool = True
+            try:
+                lits = []
+                for x in args:
+                    c, f = self.canon_cond(x)
+                    lits.append((c, f))
+                nneg = sum(1 for c, f in lits if f)
+                if extra == 'Or' and 2 * nneg >= len(lits):
+                    mem = [c if f else RF(self, p_atom(self.intern('unop', (c,), 'Not', None))) for c, f in lits]
+                    mem = sorted(mem, key=lambda r: self.fmt(r))
+                    conj = RF(self, p_atom(self.intern('bool', tuple(mem), 'And', None)))
+                    return RF(self, p_atom(self.intern('unop', (conj,), 'Not', None)))
+                mem = [RF(self, p_atom(self.intern('unop', (c,), 'Not', None))) if f else c for c, f in lits]
+                mem = sorted(mem, key=lambda r: self.fmt(r))
+                return RF(self, p_atom(self.intern('bool', tuple(mem), extra, None)))
+            finally:
+                self._in_bool = False
         if head == 'idx' and len(args) == 2 and isinstance(args[0], RF) and getattr(self, 'scalars', None):
             # quantities a rule declares scalar (a radius, the first element of a 1-D array): picking an element
             # or a slice of an expression leaves them alone, so hoisting `r = R + z` out of a loop and writing
@@ -293,6 +315,11 @@ class Table:
                 return args[0]
         if head == 'idx' and len(args) == 2 and isinstance(args[0], RF) and isinstance(args[1], RF) and \
                 args[1].const() is not None and args[1].const().denominator == 1:
+            # where(mask)[0] is flatnonzero(mask)
+            wa = args[0].single_atom()
+            if wa is not None and self.atoms[wa].head == 'call' and self.atoms[wa].extra == ('fn:where',) and \
+                    len(self.atoms[wa].args) == 1 and args[1].const() == 0:
+                return self.atom('call', self.atoms[wa].args, extra=('fn:flatnonzero',))
             # diff(x)[k] is x[k+1] - x[k]  (k >= 0)  /  x[k] - x[k-1]  (k < 0)
             da = args[0].single_atom()
             if da is not None and self.atoms[da].head == 'call' and self.atoms[da].extra == ('fn:diff',) and \
